@@ -200,7 +200,7 @@ def fn_shape(fn, F):
             continue
         lb = latches[0]
         for i, nm in named:
-            if any(b in comp and kind == 'full' for (b, _, kind) in P.defs.get(i, [])):
+            if any(b in comp and kind in ('full', 'call') for (b, _, kind) in P.defs.get(i, [])):
                 lines.append('loop %s\' = %s' % (nm, shorten_vars(cn.c(norm(P.local(i, lb, len(fn.blocks[lb]['stmts'])))))))
         # exit conditions
         for b in sorted(comp):
